@@ -3,6 +3,7 @@ package main
 import (
 	"fmt"
 	"go/ast"
+	"sort"
 	"strings"
 )
 
@@ -89,6 +90,99 @@ func genFacts() {
 			b.WriteString(", ")
 		}
 		fmt.Fprintf(&b, "(%s, %v)", leanString(s.where), s.guarded)
+	}
+	b.WriteString("]\n\n")
+	// --- C03: which functions of pkg/mlrval write the retained text (printrep / printrepValid)
+	mvp := loadPkg("pkg/mlrval")
+	writers := map[string]bool{}
+	for _, fn := range mvp.names {
+		f := mvp.files[fn]
+		for _, d := range f.Decls {
+			switch x := d.(type) {
+			case *ast.FuncDecl:
+				if x.Body == nil {
+					continue
+				}
+				name := funcName(x)
+				ast.Inspect(x.Body, func(n ast.Node) bool {
+					switch y := n.(type) {
+					case *ast.AssignStmt:
+						for _, l := range y.Lhs {
+							if sel, ok := l.(*ast.SelectorExpr); ok && (sel.Sel.Name == "printrep" || sel.Sel.Name == "printrepValid") {
+								writers[name] = true
+							}
+						}
+					case *ast.KeyValueExpr:
+						if id, ok := y.Key.(*ast.Ident); ok && (id.Name == "printrep" || id.Name == "printrepValid") {
+							writers[name] = true
+						}
+					case *ast.StarExpr:
+					}
+					return true
+				})
+				// whole-struct overwrite "*mv = ..." also rewrites the text
+				ast.Inspect(x.Body, func(n ast.Node) bool {
+					if as, ok := n.(*ast.AssignStmt); ok {
+						for _, l := range as.Lhs {
+							if st, ok := l.(*ast.StarExpr); ok {
+								if id, ok := st.X.(*ast.Ident); ok && x.Recv != nil && len(x.Recv.List) > 0 && len(x.Recv.List[0].Names) > 0 && id.Name == x.Recv.List[0].Names[0].Name {
+									if strings.Contains(exprString(mvp.fset, x.Recv.List[0].Type), "Mlrval") {
+										writers[name+"(*recv=)"] = true
+									}
+								}
+							}
+						}
+					}
+					return true
+				})
+			case *ast.GenDecl:
+				// package-level composite literals (constants such as VOID, TRUE …)
+				ast.Inspect(x, func(n ast.Node) bool {
+					if kv, ok := n.(*ast.KeyValueExpr); ok {
+						if id, ok := kv.Key.(*ast.Ident); ok && (id.Name == "printrep" || id.Name == "printrepValid") {
+							writers["<package-level literal in "+fn+">"] = true
+						}
+					}
+					return true
+				})
+			}
+		}
+	}
+	var wl []string
+	for w := range writers {
+		wl = append(wl, w)
+	}
+	sort.Strings(wl)
+	b.WriteString("/-- C03: every function of pkg/mlrval that assigns `printrep`/`printrepValid` (the retained\noriginal text of a value) or builds a Mlrval literal with them. -/\ndef printrepWriters : List String := [")
+	for i, w := range wl {
+		if i > 0 {
+			b.WriteString(", ")
+		}
+		b.WriteString(leanString(w))
+	}
+	b.WriteString("]\n\n")
+	// --- C03: in mlrval_infer.go, what text do the inference setters receive?
+	b.WriteString("/-- C03: `(enclosing function, setter, first argument)` of every `SetFrom…String` call in\npkg/mlrval/mlrval_infer.go: the text handed to the setter that overwrites `printrep`. -/\ndef inferSetterCalls : List (String × String × String) := [")
+	first := true
+	if f := mvp.files["mlrval_infer.go"]; f != nil {
+		for _, d := range f.Decls {
+			fd, ok := d.(*ast.FuncDecl)
+			if !ok || fd.Body == nil {
+				continue
+			}
+			ast.Inspect(fd.Body, func(n ast.Node) bool {
+				if ce, ok := n.(*ast.CallExpr); ok {
+					if sel, ok := ce.Fun.(*ast.SelectorExpr); ok && strings.HasPrefix(sel.Sel.Name, "SetFrom") && len(ce.Args) > 0 {
+						if !first {
+							b.WriteString(", ")
+						}
+						first = false
+						fmt.Fprintf(&b, "(%s, %s, %s)", leanString(funcName(fd)), leanString(sel.Sel.Name), leanString(exprString(mvp.fset, ce.Args[0])))
+					}
+				}
+				return true
+			})
+		}
 	}
 	b.WriteString("]\n\n")
 	b.WriteString("end Miller.Gen\n")
